@@ -122,6 +122,10 @@ func (w *c04Walk) expr(e kvql.Expression, depth int) (string, bool) {
 var c04Pairs = [][2]string{
 	{"a", "12"}, {"ab", "-3"}, {"b", "2.5"}, {"ka", "abc"}, {"kb", ""}, {"kc", "a,b,c"},
 	{"", "7"}, {"x,y", "007"}, {"12", "x"}, {"A", "1e2"}, {"zz", "-1048576"},
+	// a JSON document whose members are not all text: a field access is TYPED as text but yields
+	// whatever the document holds (JSON is outside the Coq twins: these pairs get the direct
+	// verdict of the Go side only)
+	{"j", `{"n":1,"s":"x","b":true,"l":[1,2],"o":{"s":"y"}}`},
 }
 
 // c04Canon: canonCol with float values compared by IEEE equality (+0 = -0): the property
@@ -820,6 +824,9 @@ func runC04(c *runCtx) error {
 		"join(',', 'a', 'b')", "join(',', 'a', upper('b'))", "join(',', key, 'a' + 'b')", "join('a' + 'b', 'x', 'y')", "join(',', 1 + 2, 'a')", "join(1, 'a')",
 		"cosine_distance(list(1, 2), list(1, 2))", "l2_distance(list(1, 2), list(1, 2))", "l2_distance(list(3, 0), list(0, 4))", "l2_distance(list(3, 0), list(0, 4)) + 1", "l2_distance(list(1, 2), list(1))",
 		"json('{}')", "json(value)", "json('{\"a\": 1}')['a']",
+		"str(json(value)['n'])", "str(json(value)['s'])", "str(json(value)['b'])", "len(str(json(value)['n']))", "upper(str(json(value)['s']))",
+		"str(json(value)['o']['s']) + 'z'", "str(json(value)['n']) = '1.000000'", "strlen(str(json(value)['n'])) > 3", "str(json(value)['s']) + str(json(value)['n'])",
+		"str(str(json(value)['n']))", "str(upper(key))", "str(key + 'a')", "str(split(value, ',')[0])", "lower(str(json(value)['b']))", "is_int(str(json(value)['n']))",
 		"UPPER('a')", "Upper('a') + 'b'", "nosuchfn('a')", "upper()", "upper('a', 'b')", "strlen(upper(lower('Ab')))",
 		"int(str(int('7')))", "upper(str(1 + 2) + 'x')", "strlen(str(1.5 * 2))", "is_int(str(1 + 2))", "int(upper('1') + '2') * 2",
 		"'a' in ('a', 'b')", "'a' in (upper('a'), 'b')", "key in ('a' + 'b', 'a')", "1 in (1, 1 + 1)", "int(value) in (1 + 1, 12)", "'a' in split('a,b', ',')", "upper('a') in split('A,b', ',')", "2 in list(1, 1 + 1)",
@@ -834,6 +841,33 @@ func runC04(c *runCtx) error {
 	}
 	for _, x := range calls {
 		ctx.one(x, "E calls and lists")
+	}
+	// ---- H: two constant calls in ONE expression / statement whose (folded) arguments print
+	// alike but differ in kind (an integer and a float with an integral value that is itself the
+	// result of folding): anything the optimizer remembers per statement must not mix them up
+	{
+		alike := [][2]string{{"(1.5 + 1.5)", "3"}, {"(0.5 + 0.5)", "1"}, {"(1.5 * 2)", "3"}, {"(2 * 1.5)", "3"}, {"(4 / 2.0)", "2"}, {"(3.5 - 0.5)", "3"}, {"(7 - 0.5 - 0.5)", "6"}}
+		fns := []string{"str(%s)", "is_float(%s)", "is_int(%s)", "strlen(str(%s))", "float(%s)", "int(%s)", "str(%s + 1)", "list(%s, 1)[0]"}
+		for _, ab := range alike {
+			for _, f := range fns {
+				for _, sw := range []bool{false, true} {
+					a, b := fmt.Sprintf(f, ab[0]), fmt.Sprintf(f, ab[1])
+					if sw {
+						a, b = b, a
+					}
+					if strings.HasPrefix(f, "str(") {
+						ctx.one(c04Bin(a, "+", b), "H alike constants, one expression")
+						ctx.one(c04Bin(c04Bin(a, "+", "key"), "+", b), "H alike constants, one expression")
+					}
+					ctx.one(c04Bin(a, "=", b), "H alike constants, one expression")
+					ctx.one(c04Bin(c04Bin(a, "=", b), "|", "(key = 'a')"), "H alike constants, one expression")
+					if keep(2) {
+						ctx.statement(a, c04Bin(c04Bin(b, "=", b), "&", "(key != 'zz')"))
+						ctx.statement(c04Bin("str(int(value))", "+", "str("+b+")"), c04Bin(a, "=", a))
+					}
+				}
+			}
+		}
 	}
 	// ---- F: random
 	nr := 450
